@@ -12,10 +12,10 @@ AE == {"absent", "gzip", "gzip_deflate", "deflate_gzip", "br_gzipq", "GZIP", "id
 ListsGzip(a) == a \in {"gzip", "gzip_deflate", "deflate_gzip", "br_gzipq", "GZIP"}
 CT == {"json", "json_charset", "plain", "none"}
 Matches(t) == t \in {"json", "json_charset"}          \* configured prefix: application/json
-Sizes == {"min-1", "min", "min+1", "big"}
+Sizes == {"empty", "min-1", "min", "min+1", "big"}
 \* around one megabyte and around the 10 MB buffering cap (BigCases only)
 BigSizes == {"mb+1", "cap", "cap+1", "cap+100k"}
-AtLeastMin(z) == z # "min-1"
+AtLeastMin(z) == z \notin {"empty", "min-1"}
 AtMostCap(z) == z \notin {"cap+1", "cap+100k"}
 
 Cases == [ae : AE, ct : CT, size : Sizes, compressible : BOOLEAN, explicit : BOOLEAN, status : {200, 201, 404},
